@@ -34,8 +34,19 @@ def declared_encoding(text):
     for line in text.split("\n", 2)[:2]:
         m = _COOKIE.match(line)
         if m:
-            return m.group(1)
+            return _normal_name(m.group(1))
     return None
+
+
+def _normal_name(orig):
+    """Python's own reading of a coding name (tokenize._get_normal_name / get_normal_name in
+    tokenizer.c): 'utf-8-unix', 'latin-1-dos', ... name utf-8 / iso-8859-1."""
+    enc = orig[:12].lower().replace("_", "-")
+    if enc.startswith("utf-8-"):
+        return "utf-8"
+    if enc.startswith(("latin-1-", "iso-8859-1-", "iso-latin-1-")):
+        return "iso-8859-1"
+    return orig
 
 
 def newline_of(data: bytes) -> str:
